@@ -1,2 +1,3 @@
 import TinsModel.Props.C04
 #print axioms Tins.Props.C04.be_field_truncates
+#print axioms Tins.Props.C04.l2_built_packet_reparse
